@@ -105,7 +105,7 @@ func genAuthSpec(r *wire.Rng, kind int, tr string, asciiOnly bool) []string {
 	case 0:
 		tok := "ok"
 		if r.Chance(1, 6) {
-			tok = wire.Pick(r, []string{"garbage", "expired", "wrongiss", "otherkey"})
+			tok = wire.Pick(r, []string{"garbage", "expired", "wrongiss", "otherkey", "okfloat", "expiredfloat"})
 		}
 		audKind := "list"
 		if r.Chance(1, 10) {
